@@ -131,17 +131,17 @@ def r2_aligned(ctx: Context, v: CalibrateView) -> None:
     for c in v.sample:
         if isinstance(c.func, ast.Attribute) and isinstance(c.func.value, ast.Name):
             meth = c.func.value.id
-    len_class = {f"{meth}.batch_size", f"len({p_name})", f"{p_name}.shape[0]", f"len({s_name})", f"len({l_name})", f"{s_name}.shape[0]"}
+    len_texts = [f"{meth}.batch_size", f"len({p_name})", f"{p_name}.shape[0]", f"len({s_name})", f"len({l_name})", f"{s_name}.shape[0]"]
+    len_class = set(len_texts)
     for attr in ("batch_num_samp", "method_samp"):
         c = chunks.get(attr)
-        mult = None
-        if isinstance(c, ast.BinOp) and isinstance(c.op, ast.Mult):
-            for a, b in ((c.left, c.right), (c.right, c.left)):
-                if isinstance(a, (ast.List, ast.Tuple)) and len(a.elts) == 1:
-                    mult = b
-        elif isinstance(c, ast.Call) and (dotted(c.func) or "").split(".")[-1] in ("full", "repeat") and len(c.args) >= 2:
-            mult = c.args[0] if (dotted(c.func) or "").endswith("full") else c.args[1]
-        ok = mult is not None and src(mult) in len_class
+        st_ = v.writes[attr][0] if v.writes[attr] else None
+        parts = v.label_parts(c, st_) if c is not None and st_ is not None else []
+        if c is not None and st_ is not None and not parts:
+            raise AnalysisError(f"{v.cal.loc(st_)}: the {attr} chunk `{src(c)[:60]}` is not a repeated label ([label] * n, np.full, np.repeat); cannot decide R2.lengths")
+        want = set().union(*[v.form_texts(t, st_) for t in len_texts if "None" not in t]) if st_ is not None else set()
+        ok = bool(parts) and any(v.form_texts(m, st_) & want for _, m in parts)
+        mult = parts[0][1] if parts else None
         ctx.check(ok, "R2.lengths", f"Calibrator.calibrate:{attr}:multiplicity", f"{attr} grows by the number of rows of the batch (batch_size == len(sample()))",
                   f"{attr} grows by `{src(mult) if mult is not None else src(c) if c is not None else '?'}` labels - not the number of rows recorded for this batch", v.cal, v.writes[attr][0] if v.writes[attr] else v.cal.node)
     for s in v.writes["n_sampled_params"]:
@@ -149,6 +149,14 @@ def r2_aligned(ctx: Context, v: CalibrateView) -> None:
         if isinstance(s, ast.AugAssign) and isinstance(s.op, ast.Add):
             val = n.rat(parse_expr("self.n_sampled_params")) + n.rat(s.value)
         ok = val is not None and any(val.equals(n.rat(parse_expr(f"self.n_sampled_params + {t}"))) for t in len_class if "None" not in t)
+        if not ok and isinstance(s, (ast.Assign, ast.AugAssign)):
+            # through locals: `n = len(new_params); self.n_sampled_params += n`
+            inc_forms = v.form_texts(s.value, s)
+            want_inc = set().union(*[v.form_texts(t, s) for t in len_texts if "None" not in t])
+            if isinstance(s, ast.AugAssign) and isinstance(s.op, ast.Add):
+                ok = bool(inc_forms & want_inc)
+            else:
+                ok = any(f in (f"self.n_sampled_params + {w}", f"{w} + self.n_sampled_params") for f in inc_forms for w in want_inc)
         ctx.check(ok, "R2.lengths", "Calibrator.calibrate:n_sampled_params", "the sample counter grows by the number of rows of the batch",
                   f"sample counter updated by `{src(s)}`", v.cal, s)
     # commit region: between the first and the last record write nothing that can raise in user code
@@ -306,16 +314,19 @@ def r4_loss_association(ctx: Context, v: CalibrateView) -> None:
 # ---------------------------------------------------------------------------------------------- R5
 def r5_labels(ctx: Context, v: CalibrateView) -> None:
     g, head = v.g, v.head
-    chunk = new_chunk(v, v.writes["batch_num_samp"][0], "batch_num_samp") if v.writes["batch_num_samp"] else None
-    lab = None
-    if isinstance(chunk, ast.BinOp):
-        for a in (chunk.left, chunk.right):
-            if isinstance(a, (ast.List, ast.Tuple)) and len(a.elts) == 1:
-                lab = a.elts[0]
-    ctx.check(lab is not None and src(lab) == "self.current_batch_index", "R5.batch-label", "Calibrator.calibrate:batch-label", "the batch label is current_batch_index",
-              f"batch label is `{src(lab) if lab is not None else src(chunk) if chunk is not None else '?'}`", v.cal, v.writes["batch_num_samp"][0] if v.writes["batch_num_samp"] else v.cal.node)
+    st_b = v.writes["batch_num_samp"][0] if v.writes["batch_num_samp"] else None
+    chunk = new_chunk(v, st_b, "batch_num_samp") if st_b is not None else None
+    parts = v.label_parts(chunk, st_b) if chunk is not None else []
+    if chunk is not None and not parts:
+        raise AnalysisError(f"{v.cal.loc(st_b)}: the batch label chunk `{src(chunk)[:60]}` is not a repeated label; cannot decide R5.batch-label")
+    lab = parts[0][0] if parts else None
+    ok = lab is not None and "self.current_batch_index" in v.form_texts(lab, st_b)
+    ctx.check(ok, "R5.batch-label", "Calibrator.calibrate:batch-label", "the batch label is current_batch_index",
+              f"batch label is `{src(lab) if lab is not None else src(chunk) if chunk is not None else '?'}`", v.cal, st_b if st_b is not None else v.cal.node)
     inc = v.write_nodes(["current_batch_index"])
-    labn = v.write_nodes(["batch_num_samp"])
+    # where the counter is actually read for the label (the record statement, or the local the label was put in)
+    labn = v.read_nodes(chunk, st_b, "current_batch_index") if chunk is not None and st_b is not None else set()
+    labn = labn or v.write_nodes(["batch_num_samp"])
     for i in inc:
         p = g.path_avoiding(i, labn, {head}, labels=NORMAL)
         ctx.check(p is None, "R5.batch-label", "Calibrator.calibrate:label-before-increment", "the label is read before the index is incremented (zero-based)",
@@ -327,19 +338,23 @@ def r5_labels(ctx: Context, v: CalibrateView) -> None:
     ctx.check(miss is None, "R5.batch-label", "Calibrator.calibrate:increment-every-iteration", "every completed iteration increments the batch index once",
               "an iteration can complete without incrementing the batch index", v.cal, head.ast, path_text(v.cal, miss))
     # sampler label
-    chunk = new_chunk(v, v.writes["method_samp"][0], "method_samp") if v.writes["method_samp"] else None
-    lab = None
-    if isinstance(chunk, ast.BinOp):
-        for a in (chunk.left, chunk.right):
-            if isinstance(a, (ast.List, ast.Tuple)) and len(a.elts) == 1:
-                lab = a.elts[0]
+    st_m = v.writes["method_samp"][0] if v.writes["method_samp"] else None
+    chunk = new_chunk(v, st_m, "method_samp") if st_m is not None else None
+    parts = v.label_parts(chunk, st_m) if chunk is not None else []
+    if chunk is not None and not parts:
+        raise AnalysisError(f"{v.cal.loc(st_m)}: the sampler label chunk `{src(chunk)[:60]}` is not a repeated label; cannot decide R5.sampler-label")
+    lab = parts[0][0] if parts else None
     meth = None
     for c in v.sample:
         if isinstance(c.func, ast.Attribute) and isinstance(c.func.value, ast.Name):
             meth = c.func.value.id
-    ok = lab is not None and src(lab) in (f"self.samplers_id_table[type({meth}).__name__]", f"self.samplers_id_table[{meth}.__class__.__name__]")
+    want = set()
+    if st_m is not None and meth is not None:
+        for t in (f"self.samplers_id_table[type({meth}).__name__]", f"self.samplers_id_table[{meth}.__class__.__name__]"):
+            want |= v.form_texts(t, st_m)
+    ok = lab is not None and bool(v.form_texts(lab, st_m) & want)
     ctx.check(ok, "R5.sampler-label", "Calibrator.calibrate:sampler-label", "the sampler label is the id of the class of the sampler that produced the batch",
-              f"sampler label is `{src(lab) if lab is not None else '?'}` while the batch was produced by `{meth}`", v.cal, v.writes["method_samp"][0] if v.writes["method_samp"] else v.cal.node)
+              f"sampler label is `{src(lab) if lab is not None else '?'}` while the batch was produced by `{meth}`", v.cal, st_m if st_m is not None else v.cal.node)
     ok = meth is not None and len(v.local_defs(meth)) == 1 and v.local_defs(meth)[0] in v.get_next
     ctx.check(ok, "R5.sampler-label", "Calibrator.calibrate:designated-sampler", "that sampler is the one returned by scheduler.get_next_sampler() in this iteration",
               "the sampling object is not the scheduler's designated sampler", v.cal, v.cal.node)
